@@ -454,6 +454,68 @@ fn chk_no_panic_bytes(data: &[u8]) -> Option<Value> {
     match r { Ok(Some(v)) if v == b"<panic>".to_vec() => Some(hit(json!({"bytes": data}), "result or error".into(), "panic".into(), "sexp_from_stream")), Err(_) => Some(hit(json!({"bytes": data}), "result or error".into(), "panic".into(), "sexp_from_stream")), _ => None }
 }
 
+
+// ---- C14 / C18: degenerate include files (each case runs in a child process: a stack overflow cannot be caught in-process)
+const INCLUDE_KINDS: &[&str] = &["empty", "spaces", "comment", "atom", "nil_form", "two_forms", "string", "diamond", "missing", "dir", "cycle1", "cycle2"];
+const INCLUDE_MODES: &[&str] = &["cl21", "cl23", "classic"];
+pub fn include_child(kind: &str, mode: &str) -> i32 {
+    use chialisp::classic::clvm_tools::clvmc::compile_clvm_text_maybe_opt;
+    use chialisp::compiler::compiler::DefaultCompilerOpts;
+    use chialisp::compiler::comptypes::CompilerOpts;
+    use chialisp::compiler::preprocessor::gather_dependencies;
+    use std::collections::HashMap;
+    use std::rc::Rc;
+    let base = std::env::temp_dir().join(format!("verif_replay_inc_{}_{}_{}", std::process::id(), kind, mode));
+    let _ = std::fs::remove_dir_all(&base);
+    if std::fs::create_dir_all(&base).is_err() { return 9; }
+    let w = |n: &str, c: &str| { let _ = std::fs::write(base.join(n), c); };
+    match kind {
+        "empty" => w("inc.clib", ""),
+        "spaces" => w("inc.clib", "  \n\t \n"),
+        "comment" => w("inc.clib", "; nothing here\n"),
+        "atom" => w("inc.clib", "hello"),
+        "nil_form" => w("inc.clib", "()"),
+        "two_forms" => w("inc.clib", "((defconstant K1 1)) ((defconstant K2 2))"),
+        "string" => w("inc.clib", "\"just a string\""),
+        "diamond" => { w("inc.clib", "((include left.clib) (include right.clib))"); w("left.clib", "((include shared.clib) (defconstant L 1))"); w("right.clib", "((include shared.clib) (defconstant R 2))"); w("shared.clib", "((defun-inline twice (A) (* A 2)))"); }
+        "missing" => {}
+        "dir" => { let _ = std::fs::create_dir_all(base.join("inc.clib")); }
+        "cycle1" => w("inc.clib", "((include inc.clib))"),
+        "cycle2" => { w("inc.clib", "((include other.clib))"); w("other.clib", "((include inc.clib))"); }
+        _ => return 9,
+    }
+    let sigil = match mode { "cl21" => "(include *standard-cl-21*) ", "cl23" => "(include *standard-cl-23*) ", _ => "" };
+    let src = format!("(mod (X) {}(include inc.clib) (+ X 1))", sigil);
+    let dirs = vec![base.to_string_lossy().to_string()];
+    let r = catch_unwind(move || {
+        let mut a = clvmr::Allocator::new();
+        let opts: Rc<dyn CompilerOpts> = Rc::new(DefaultCompilerOpts::new("main.clsp"));
+        let opts = opts.set_search_paths(&dirs);
+        let mut syms = HashMap::new();
+        let c = compile_clvm_text_maybe_opt(&mut a, false, opts.clone(), &mut syms, &src, "main.clsp", false).is_ok();
+        let d = gather_dependencies(opts, "main.clsp", &src).is_ok();
+        (c, d)
+    });
+    let _ = std::fs::remove_dir_all(&base);
+    match r { Err(_) => 3, Ok(_) => 0 }
+}
+fn chk_include_case(kind: &str, mode: &str) -> Option<Value> {
+    let input = json!({"include_file": kind, "mode": mode});
+    let exe = match std::env::current_exe() { Ok(e) => e, Err(_) => return None };
+    let out = std::process::Command::new(exe).args(["child_include", kind, mode]).stdout(std::process::Stdio::null()).stderr(std::process::Stdio::null()).status();
+    let how = "compile_clvm_text_maybe_opt + gather_dependencies on (mod (X) [sigil] (include inc.clib) (+ X 1)) with the include file(s) of this kind in a scratch search directory, in a child process";
+    match out {
+        Ok(st) => match st.code() {
+            Some(0) => None,
+            Some(3) => Some(hit(input, "a result or an error".into(), "panic".into(), how)),
+            Some(4) => Some(hit(input, "a diamond-shaped include graph compiles".into(), "compile error".into(), how)),
+            Some(c) => Some(hit(input, "a result or an error".into(), format!("child exit code {}", c), how)),
+            None => Some(hit(input, "a result or an error".into(), "process killed by a signal (stack overflow abort)".into(), how)),
+        },
+        Err(_) => None,
+    }
+}
+
 // ---- C11: library entry point vs command-line tool path compile the same program
 fn chk_entry_points(src: &str, optimize: bool) -> Option<Value> { chk_entry_points_inc(src, optimize, &[]) }
 fn chk_entry_points_inc(src: &str, optimize: bool, includes: &[String]) -> Option<Value> {
@@ -1021,6 +1083,16 @@ pub fn search(name: &str, seed: u64) -> Value {
             }
             nf("library entry and tool path emit identical bytes for 3 programs x cl21/cl22/cl23 x optimize on/off, and for 4 search-path lists (incl. a repeated directory) x cl21/cl23")
         }
+        "include_files" | "process_include" => {
+            let mut n = 0;
+            for k in INCLUDE_KINDS { for m in INCLUDE_MODES {
+                let input = json!({"include_file": k, "mode": m});
+                if skipped(&input) { continue; }
+                n += 1;
+                if let Some(v) = chk_include_case(k, m) { return v; }
+            } }
+            nf(&format!("{} (include-file kind, dialect) cases end in a result or an error: include files that are empty, blank, comment-only, a bare atom, (), two forms, a string, a diamond-shaped graph, missing, a directory, self- and mutually-including (recorded findings skipped)", n))
+        }
         "no_panic" => {
             let alpha: &[u8] = b"().\"'\\#;0xa-\n ";
             let n = alpha.len();
@@ -1105,6 +1177,7 @@ pub fn run_input(name: &str, input: &Value) -> Value {
         "choose_path" | "flatten_signed_int" | "truthy" | "atom_value" | "run_step" | "combine" | "eval_args" | "generate_argument_refs" =>
             step_vs_consensus(&bytes(&input["program"]), input["env"].as_u64().unwrap_or(0) as u8).unwrap_or_else(|| nf("input does not violate the contract on this tree")),
         "atom_from_stream" | "sexp_from_stream" | "int_from_bytes" | "get_u32" | "read" => chk_deser(&bytes(&input["bytes"])).unwrap_or_else(|| nf("input does not violate the contract on this tree")),
+        "include_files" | "process_include" => chk_include_case(input["include_file"].as_str().unwrap_or(""), input["mode"].as_str().unwrap_or("")).unwrap_or_else(|| nf("input does not violate the contract on this tree")),
         "compose_paths" => chk_compose_paths(&big(&input["p"]), &big(&input["q"])).unwrap_or_else(|| nf("input does not violate the contract on this tree")),
         _ => nf("no replayer for this obligation"),
     }
